@@ -119,9 +119,9 @@ Proof.
     destruct (_ >? _); [reflexivity|]. apply IH; assumption.
 Qed.
 
-Definition small (z : Z) : Prop := Z.abs z <= 2 ^ 40.
+Definition small (z : Z) : Prop := Z.abs z <= 2 ^ 22.
 
-Lemma parse_int_digits d : all_digits d -> d <> [] -> val d <= 2 ^ 40 -> parse_int d = Ok (val d).
+Lemma parse_int_digits d : all_digits d -> d <> [] -> val d <= 2 ^ 22 -> parse_int d = Ok (val d).
 Proof.
   intros Hd Hne Hs. destruct d as [|c d]; [congruence|]. unfold parse_int.
   inversion Hd as [|? ? Hc _]; subst.
@@ -130,7 +130,7 @@ Proof.
   cbn [bind]. replace (0 * 10 ^ len (c :: d) + val (c :: d)) with (val (c :: d)) by lia.
   destruct (Z.gtb_spec (val (c :: d)) max_int); [unfold max_int in *; lia|reflexivity].
 Qed.
-Lemma parse_int_minus d : all_digits d -> d <> [] -> val d <= 2 ^ 40 -> parse_int (45%N :: d) = Ok (- val d).
+Lemma parse_int_minus d : all_digits d -> d <> [] -> val d <= 2 ^ 22 -> parse_int (45%N :: d) = Ok (- val d).
 Proof.
   intros Hd Hne Hs. unfold parse_int. cbn [N.eqb Pos.eqb]. unfold parse_uint.
   destruct d as [|c d]; [congruence|].
@@ -215,7 +215,7 @@ Qed.
 
 (* the final part of Scan (getNatural + the two trims), given the adjusted lengths *)
 Lemma natural_ok (ng : bool) ip fd e :
-  all_digits ip -> all_digits fd -> small e -> len ip <= 2 ^ 40 -> len fd <= 2 ^ 40 ->
+  all_digits ip -> all_digits fd -> small e -> len ip <= 2 ^ 22 -> len fd <= 2 ^ 22 ->
   let il := len ip + e in let fl := len fd - e in
   exists n,
     (do natexp <-
@@ -227,13 +227,14 @@ Lemma natural_ok (ng : bool) ip fd e :
 Proof.
   intros Hip Hfd He Hli Hlf il fl. unfold small in He.
   pose proof (len_nonneg ip). pose proof (len_nonneg fd).
-  assert (P40 : 2 ^ 40 < 2 ^ 45) by (apply Z.pow_lt_mono_r; lia).
-  assert (P45 : 2 ^ 45 < 2 ^ 47) by (apply Z.pow_lt_mono_r; lia).
+  assert (P40 : 2 ^ 22 < 2 ^ 24) by (apply Z.pow_lt_mono_r; lia).
+  assert (P45 : 2 ^ 24 < 2 ^ 47) by (apply Z.pow_lt_mono_r; lia).
+  assert (P23 : 3 * 2 ^ 22 <= 2 ^ 24) by (vm_compute; discriminate).
   assert (P47 : 2 ^ 47 < 2 ^ 62) by (apply Z.pow_lt_mono_r; lia).
   assert (Hd : all_digits (ip ++ fd)) by (apply all_digits_app; auto).
-  assert (MB : forall z, 0 <= z <= 2 ^ 45 -> make_bytes z = Ok tt).
+  assert (MB : forall z, 0 <= z <= 2 ^ 24 -> make_bytes z = Ok tt).
   { intros z Hz. unfold make_bytes, max_cap. destruct (Z.ltb_spec z 0); [lia|].
-    destruct (Z.gtb_spec z (2 ^ 47)); [lia|]. reflexivity. }
+    destruct (Z.gtb_spec z (2 ^ 24)); [lia|]. reflexivity. }
   destruct (Z.ltb_spec il 0) as [Hil|Hil].
   - (* leading zeros *)
     rewrite MB by (subst il fl; lia). cbn [bind].
@@ -266,13 +267,13 @@ Qed.
 
 (* ---------- main theorems ---------- *)
 Definition exp_small (s : bytes) : Prop :=
-  small (exp_value (p_exp (decompose s))) /\ len s <= 2 ^ 40.
+  small (exp_value (p_exp (decompose s))) /\ len s <= 2 ^ 22.
 
 Lemma exp_value_small_parts ep : exp_digits_ok ep -> small (exp_value ep) ->
   match ep with
   | None => True
-  | Some (d1, None) => val d1 <= 2 ^ 40
-  | Some (_, Some (_, d2)) => val d2 <= 2 ^ 40
+  | Some (d1, None) => val d1 <= 2 ^ 22
+  | Some (_, Some (_, d2)) => val d2 <= 2 ^ 22
   end.
 Proof.
   unfold small. destruct ep as [[d1 [[m d2]|]]|]; cbn [exp_value exp_digits_ok]; auto.
@@ -280,8 +281,8 @@ Proof.
   - intros H1 H. pose proof (val_bound d1 H1). lia.
 Qed.
 
-Lemma len_parts_le (neg : bool) ip ft et : len ((if neg then [45%N] else []) ++ ip ++ ft ++ et) <= 2 ^ 40 ->
-  len ip <= 2 ^ 40 /\ len ft <= 2 ^ 40.
+Lemma len_parts_le (neg : bool) ip ft et : len ((if neg then [45%N] else []) ++ ip ++ ft ++ et) <= 2 ^ 22 ->
+  len ip <= 2 ^ 22 /\ len ft <= 2 ^ 22.
 Proof.
   rewrite !len_app. intros H.
   pose proof (len_nonneg ip). pose proof (len_nonneg ft). pose proof (len_nonneg et).
@@ -304,7 +305,7 @@ Proof.
   assert (Hf13 : f13b_shape ip fp ep = false) by exact Hk.
   rewrite Hint, Hfrac, Hloose, Hf13. cbn [andb negb nonempty].
   pose proof (exp_value_small_parts ep Hed Hs) as Hsm.
-  assert (Hlens : len ip <= 2 ^ 40 /\ len (frac_digits fp) <= 2 ^ 40).
+  assert (Hlens : len ip <= 2 ^ 22 /\ len (frac_digits fp) <= 2 ^ 22).
   { rewrite Hshape in Hlen. apply len_parts_le in Hlen. destruct Hlen as [H1 H2]. split; [exact H1|].
     destruct fp; cbn [frac_text frac_digits] in *; [rewrite len_cons in H2; lia|change (len []) with 0; lia]. }
   destruct Hlens as [Hli Hlf].
@@ -314,7 +315,7 @@ Proof.
                       Ok (wrap (len ip + e), wrap (len (frac_digits fp) - e)))
                 = Ok (len ip + exp_value ep, len (frac_digits fp) - exp_value ep)).
   { pose proof (len_nonneg ip). pose proof (len_nonneg (frac_digits fp)).
-    assert (P40 : 2 ^ 40 < 2 ^ 62) by (apply Z.pow_lt_mono_r; lia). unfold small in Hs.
+    assert (P40 : 2 ^ 22 < 2 ^ 62) by (apply Z.pow_lt_mono_r; lia). unfold small in Hs.
     destruct ep as [[d1 [[m d2]|]]|].
     - (* sign + digits *)
       cbn [exp_ok] in Hexp. apply andb_true_iff in Hexp. destruct Hexp as [Hd1 Hd2].
